@@ -12,7 +12,7 @@ from pyvc.engine import GenResult, BoundMethod
 
 F = "mlinsights/helpers/pipeline.py"
 TR = ("fit", "transform", "get_params", "set_params")
-CL = ("fit", "predict", "predict_proba", "get_params", "set_params")
+CL = ("fit", "predict", "predict_proba", "decision_function", "get_params", "set_params")     # e.g. LogisticRegression: all three outputs
 
 
 def leaf(E, name, methods=TR):
@@ -106,11 +106,12 @@ class AlterForDebugging(Contract):
         for coor, m in enum_spec(a._p, (0,)):
             if not isinstance(m, Obj):
                 continue
-            for meth in ("transform", "predict", "predict_proba"):
+            for meth in ("transform", "predict", "predict_proba", "decision_function"):
                 if meth not in m.fields["$methods"]:
                     continue
                 repl = m.fields.get(meth)
                 if not isinstance(repl, BoundMethod):
+                    # EVERY output method the model has is wrapped (a model may have several: predict_proba AND decision_function)
                     conj_tr.append(z3.BoolVal(False))
                     continue
                 if m.fields.get("$children"):
@@ -197,7 +198,8 @@ class GetName(Contract):
         return dict(member=a.context["names"].member, n=a.context["n"], nstored=len(a.context["names"].stored))
 
     loops = {0: lambda E, L: {"the_counter_only_grows": z(L["context"]["n"]) >= z(L.old("context")["n"]),
-                              "the_suggestion_starts_with_the_prefix": z3.PrefixOf(z(L["prefix"]), z(L["sug"]))}}
+                              "the_suggestion_starts_with_the_prefix": z3.PrefixOf(z(L["prefix"]), z(L["sug"])),
+                              "and_is_longer_than_it": z3.Length(z(L["sug"])) > z3.Length(z(L["prefix"]))}}
 
     def ensures(self, E, a, res, old, weaker=False):
         names = a.context["names"]
@@ -219,6 +221,7 @@ class GetName(Contract):
         out["each_new_name_is_recorded_with_its_info"] = z3.BoolVal(
             len(names.stored) == old["nstored"] + len(got) and all(v is a.info for _, v in names.stored[old["nstored"]:]))
         out["each_name_starts_with_its_prefix"] = z3.And(*[z3.PrefixOf(z(p), r) for p, r in zip(prefixes, got)])
+        out["each_name_is_longer_than_its_prefix"] = z3.And(*[z3.Length(r) > z3.Length(z(p)) for p, r in zip(prefixes, got)])
         out["the_counter_only_grows"] = z(a.context["n"]) >= z(old["n"])
         return out
 
@@ -231,9 +234,91 @@ META = dict(
              "lists of tuples; types.MethodType binds a function to an instance"],
     not_applicable=["bounded in the shape of the pipeline (4 shapes, nesting depth <= 3), complete in the nested estimators and the data; arbitrary nesting by "
                     "induction would need a recursive generator contract over symbolic-length yields (not built)",
-                    "pipeline2dot / _pipeline_info as a whole: dynamically typed dictionary plumbing - a contract strong enough to carry graph "
-                    "well-formedness would be a re-implementation: bounded stand-in (DOT parsed and checked). What IS proved of it: the name generator "
+                    "pipeline2dot (string assembly of the DOT text) and the ColumnTransformer / classifier / regressor branches of _pipeline_info: bounded "
+                    "stand-in (DOT parsed and checked).  PROVED of _pipeline_info on 5 shapes of Pipeline / FeatureUnion x 1..2 input columns (real code, "
+                    "opaque estimators, symbolic node names): every input of a node is a column or an output of an earlier node, union members are "
+                    "parallel (the second reads nothing the first produces) and the union node collects one output of each.  Also proved: the name generator "
                     "_pipeline_info._get_name never hands out a name already in use, for ANY set of names in use (membership as a z3 array String -> Bool), "
                     "records exactly the new names, and keeps the requested prefix; termination of its search loop is not proved",
                     "pipeline2str: proved on the 4 shapes x 3 indents (concrete strings)"],
 )
+
+
+# ----------------------------------------------------------------------------------------------------------------------
+# the graph pipeline2dot draws: _pipeline_info lists the nodes (name, inputs, outputs).  Bounded in the SHAPE of the pipeline and in the
+# number of input columns (1 or 2 named columns), real code executed on opaque estimators.
+def _info_shapes(E):
+    a, b, c = leaf(E, "a"), leaf(E, "b"), leaf(E, "c")
+    return {
+        "transformer": lambda: leaf(E, "only"),
+        "pipeline_of_two": lambda: composite(E, "Pipeline", [a, b], "pipe"),
+        "union_first": lambda: composite(E, "FeatureUnion", [a, b], "union"),
+        "union_after_a_step": lambda: composite(E, "Pipeline", [c, composite(E, "FeatureUnion", [a, b], "union")], "pipe"),
+        "union_of_one": lambda: composite(E, "Pipeline", [c, composite(E, "FeatureUnion", [a], "union")], "pipe"),
+    }
+
+
+INFO_SHAPES = ["transformer", "pipeline_of_two", "union_first", "union_after_a_step", "union_of_one"]
+
+
+@contract(V + "::_pipeline_info", "C16")
+class PipelineInfo(Contract):
+    """every node reads only names that exist when it is reached (input columns or outputs of earlier nodes), no list of names is shared
+    between two nodes' declarations in a way that renames an earlier node's inputs, the members of a union all read what the union
+    is given (they are drawn in parallel, not chained), and the last node's outputs are new names"""
+    variants = [(sh, nc) for sh in INFO_SHAPES for nc in (1, 2)]
+    max_paths = 2000
+
+    def setup(self, E, v):
+        sh, nc = v
+        p = _info_shapes(E)[sh]()
+        return dict(pipe=p, data=["col%d" % i for i in range(nc)], context={"n": 0, "names": {}}, _p=p, _cols=["col%d" % i for i in range(nc)], _shape=sh)
+
+    def ensures(self, E, a, res, old, wrong_chain=False):
+        ok = isinstance(res, list) and len(res) >= 1 and all(isinstance(d, dict) and {"name", "inputs", "outputs"} <= set(d) for d in res)
+        out = {"a_list_of_nodes_with_name_inputs_outputs": z3.BoolVal(ok)}
+        if not ok:
+            return out
+        zs = lambda x: z3.StringVal(x) if isinstance(x, str) else x         # names handed out by _get_name are symbolic strings (loop cut)
+        isname = lambda x: isinstance(x, str) or (z3.is_expr(x) and x.sort() == z3.StringSort())
+        known = list(a._cols)
+        wf, shape_ok = [], True
+        for d in res:
+            ins, outs = list(d["inputs"]), list(d["outputs"])
+            shape_ok = shape_ok and all(isname(x) for x in ins + outs)
+            if not shape_ok:
+                break
+            for x in ins:
+                wf.append(z3.Or(*[zs(x) == zs(k) for k in known]))
+            known += outs
+        out["names_are_strings"] = z3.BoolVal(shape_ok)
+        if not shape_ok:
+            return out
+        out["every_input_is_a_column_or_an_output_of_an_earlier_node"] = z3.And(*wf) if wf else z3.BoolVal(True)
+        # members of a union are drawn in parallel: the second member reads nothing the first one produces
+        if a._shape in ("union_first", "union_after_a_step"):
+            segs, cur = [], []
+            for d in res:
+                cur.append(d)
+                if d.get("name") == "Leaf":
+                    segs.append(cur)
+                    cur = []
+            enough = len(segs) >= 2
+            out["one_group_of_nodes_per_member"] = z3.BoolVal(enough)
+            if enough:
+                first, second = segs[-2], segs[-1]
+                fin = [x for d in first for x in d["inputs"]]
+                made = [x for d in first for x in d["outputs"] if not any(x is y for y in fin)]
+                read = [x for d in second for x in d["inputs"]]
+                pairs = [zs(x) != zs(y) for x in made for y in read]
+                sep = z3.And(*pairs) if pairs else z3.BoolVal(True)
+                out["union_members_are_parallel_not_chained"] = sep if not wrong_chain else z3.Not(sep)
+                last = res[-1]
+                ok_last = last.get("name") == "union" and len(last["inputs"]) == 2
+                out["the_union_node_collects_one_output_of_every_member"] = z3.BoolVal(False) if not ok_last else z3.And(
+                    zs(last["inputs"][0]) != zs(last["inputs"][1]),
+                    *[z3.Or(*[zs(x) == zs(o) for d in seg for o in d["outputs"]]) for x, seg in zip(last["inputs"], (first, second))])
+        return out
+
+    canaries = {"members_are_chained": lambda E, a, res, old: PipelineInfo().ensures(E, a, res, old, wrong_chain=True).get(
+        "union_members_are_parallel_not_chained", z3.BoolVal(False))}
